@@ -280,6 +280,11 @@ def instrument(m, ev):
     real_bar, real_psi, real_lag = m._update_psiBarOmega, m._update_psiOmega, m.enforce_constraint_u
 
     def bar_wrapper(i, ks=None):
+        ev["node"] = int(i)
+        if ev.get("trace") is not None and ks is not None:
+            ev["trace"].append({"node": int(i), "u": m.u.tolist(), "psi": m.psiOmega.tolist(),
+                                "bar": m.psiBarOmega.tolist(), "rho": m.rho.tolist(), "w": m.w.tolist(),
+                                "lam": None, "cond": 0.0, "repair0": ev["repair"]})
         psi = m.psiOmega.copy()
         ui = m.u[i].copy()
         r = real_bar(i, ks=ks)
@@ -314,7 +319,22 @@ def instrument(m, ev):
 
     def lag_wrapper(num, den):
         lam = real_lag(num, den)
-        ev["lams"].append(float(np.asarray(lam).ravel()[0]))
+        lv = float(np.asarray(lam).ravel()[0])
+        ev["lams"].append(lv)
+        try:
+            # how much one unit in the last place of lambda / den moves the constraint sum(num / (lambda + den)):
+            # when this is not small the multiplier that enforces the constraint is not representable in binary64
+            d = np.broadcast_to(np.asarray(den, dtype=float), np.shape(num))
+            gap = lv + d
+            with np.errstate(all="ignore"):
+                sens = np.abs(num / gap) * (np.spacing(abs(lv)) + np.spacing(np.abs(d))) / np.abs(gap)
+            sens = float(np.nansum(sens[np.asarray(num) > 0])) if (np.asarray(num) > 0).any() else 0.0
+            ev["cond"][ev.get("node")] = sens if math.isfinite(sens) else float("inf")
+        except Exception:
+            ev["cond"][ev.get("node")] = float("inf")
+        if ev.get("trace"):
+            ev["trace"][-1]["lam"] = lv
+            ev["trace"][-1]["cond"] = ev["cond"][ev.get("node")]
         return lam
 
     m._update_psiBarOmega = bar_wrapper
@@ -335,7 +355,7 @@ def drive(case, h):
     t.static = None
     m = new_model(case)
     t.m = m
-    ev = {"repair": 0, "lams": [], "draws": []}
+    ev = {"repair": 0, "lams": [], "draws": [], "cond": {}}
     try:
         with quiet(), limit(CALL_TIMEOUT):
             m._check_fit_params(hypergraph=h, **fit_args(case))
@@ -352,6 +372,7 @@ def drive(case, h):
                 R = {"r": r, "seed": m.seed, "sweeps": [], "rows": [], "ill": False}
                 t.reals.append(R)
                 ev["draws"].clear()
+                ev["cond"] = {}
                 m._initialize_psiOmega()
                 psimax = np.abs(m.psiOmega.copy())
                 m._initialize_u_w(hyperEdges=m.hyperEdges, baseline_HySC=(m.baseline_r0 if r == 0 else False))
@@ -373,14 +394,20 @@ def drive(case, h):
                     ev["repair"] = 0
                     ev["lams"] = []
                     ev["draws"].clear()
+                    cond_before = dict(ev["cond"])
+                    ev["cond"] = {}
+                    ev["trace"] = [] if m.normalizeU else None
                     m._update_em()
+                    trace, ev["trace"] = ev["trace"], None
+                    sweep_cond = max(ev["cond"].values(), default=0.0)
+                    ev["cond"] = {**cond_before, **ev["cond"]}
                     after = snapshot(m)
                     psimax = np.maximum(psimax, np.abs(np.nan_to_num(m.psiOmega, nan=0.0, posinf=1e300, neginf=1e300)))
                     perm = [int(x) for x in ev["draws"][0][4]] if ev["draws"] else None
                     loglik, ntol, conv = m._check_for_convergence(it, loglik, ntol, conv)
                     S = {"it": it, "before": before, "after": after, "perm": perm, "lams": list(ev["lams"]),
                          "repair": ev["repair"], "loglik": float(loglik), "conv": bool(conv),
-                         "u_old_ok": bool(np.array_equal(m.u_old, m.u)), "psimax": psimax.tolist()}
+                         "u_old_ok": bool(np.array_equal(m.u_old, m.u)), "psimax": psimax.tolist(), "cond": sweep_cond, "trace": trace}
                     if ill_conditioned(before) or ill_conditioned(after):
                         R["ill"] = True
                     S["ill"] = R["ill"]
@@ -391,6 +418,7 @@ def drive(case, h):
                 R["final"] = (float(loglik), it, bool(conv))
                 R["u"] = m.u.copy()
                 R["w"] = m.w.copy()
+                R["cond"] = dict(ev["cond"])
                 if maxL < loglik:
                     maxL = loglik
                     best = r
@@ -513,12 +541,12 @@ def ll_from_model(static, st):
                       for a, l in zip(static["A"], st["lam"])] + [-st["penI"]])
 
 
-def compare_state(ctx, case, what, model, impl, skip_bar=False, psimax=None):
+def compare_state(ctx, case, what, model, impl, skip_bar=False, psimax=None, rtol=1e-9):
     """model vs implementation arrays after a step; returns the first difference text or None.
     psi/psiBar rows are maintained by subtraction: their error is relative to the largest value the row of psi ever had"""
     rs = None if psimax is None else [max(r) if r else 0.0 for r in psimax]
     for name, per_row in (("u", False), ("w", False), ("psi", True), ("rho", False)) + (() if skip_bar else (("bar", True),)):
-        d = mat_diff(impl[name], model[name], per_row=per_row, row_scale=rs if per_row else None)
+        d = mat_diff(impl[name], model[name], rtol=rtol, per_row=per_row, row_scale=rs if per_row else None)
         if d is not None:
             return f"{what}: {name} differs at {d[:2]}: implementation {d[2]!r}, model {d[3]!r}"
     return None
@@ -589,9 +617,14 @@ def check_case(ctx, drv, case, full=True):
         elif case["normalizeU"]:
             sums = U.sum(axis=1)
             nz = [i for i in range(N) if U[i].any()]
-            # entries below min_value_par are zeroed after the normalisation: K * min_value_par slack
-            if any(abs(sums[i] - 1) > 1e-6 + K * minv for i in nz):
-                bad = f"normalizeU=True but non-zero rows sum to {[float(sums[i]) for i in nz]}"
+            cond = t.reals[t.best]["cond"] if t.best is not None else {}
+            # entries below min_value_par are zeroed after the normalisation: K * min_value_par slack; a multiplier that
+            # binary64 cannot represent (sensitivity of the constraint to one ulp) is the ill-conditioned class
+            off = [i for i in nz if abs(sums[i] - 1) > 1e-6 + K * minv + 16 * cond.get(i, 0.0)]
+            if any(abs(sums[i] - 1) > 1e-6 + K * minv for i in nz) and not off:
+                ctx.count("rowsum_off_with_unrepresentable_multiplier")
+            if off:
+                bad = f"normalizeU=True but non-zero rows {off} sum to {[float(sums[i]) for i in off]}"
         if bad:
             if tolerated:
                 facts["decrease_ill"] = bad
@@ -700,8 +733,27 @@ def check_case(ctx, drv, case, full=True):
                         d = f"initial log-likelihood: implementation {R['init_ll']!r}, model {ll_from_model(st, ms)!r}"
                 else:
                     excused = bool(S["repair"] or S["ill"])
-                    d = compare_state(ctx, case, f"sweep {S['it']}", ms, S["after"], psimax=S["psimax"])
-                    if d is None and not close(ll_from_model(st, ms), S["loglik"], 1.0):
+                    # normalizeU: u = num / (lambda + den) amplifies rounding differences of den by the measured
+                    # sensitivity of the constraint; beyond 1e-4 the step is not comparable at all
+                    if S["trace"] is not None:
+                        # normalizeU=True: the multiplier is an input of the model, and u = num / (lambda + den)
+                        # amplifies rounding differences from node to node; compare _update_w here and then every
+                        # node update on its own, from the implementation's state before it
+                        d = mat_diff(S["after"]["w"], ms["w"])
+                        d = None if d is None else f"sweep {S['it']}: w differs at {d[:2]}: implementation {d[2]!r}, model {d[3]!r}"
+                        if d is None:
+                            d = compare_nodes(ctx, drv, st, case, S)
+                        ctx.count("model_steps_compared")
+                        if d is not None and excused:
+                            ctx.count("model_steps_differing_with_repair_or_ill_conditioned")
+                            d = None
+                        if d is not None:
+                            ctx.disagree(where, d)
+                            break
+                        continue
+                    rtol = 1e-9
+                    d = compare_state(ctx, case, f"sweep {S['it']}", ms, S["after"], psimax=S["psimax"], rtol=rtol)
+                    if d is None and not close(ll_from_model(st, ms), S["loglik"], 1.0, rtol=rtol):
                         d = f"log-likelihood after sweep {S['it']}: implementation {S['loglik']!r}, model {ll_from_model(st, ms)!r}"
                     if d is not None and near_threshold(S, ms, minv):
                         ctx.count("model_steps_skipped_near_threshold")
@@ -732,6 +784,46 @@ def check_case(ctx, drv, case, full=True):
             if a != want:
                 ctx.disagree(case, f"best-realisation bookkeeping: model {a!r}, implementation {want!r}")
     return facts
+
+
+def compare_nodes(ctx, drv, st, case, S):
+    """normalizeU=True: one `F node` line per node update of the sweep, each started from the implementation's state"""
+    tr = S["trace"]
+    if not tr:
+        return None
+    cfgt = cfg_tokens(st, f2bits, case["min_value_par"], normU=True)
+    lines = []
+    for T in tr:
+        lines.append(" ".join(["F", "node"] + cfgt + [enc_mat(T["u"], f2bits), enc_mat(T["w"], f2bits), enc_mat(T["psi"], f2bits),
+                                                      enc_mat(T["bar"], f2bits), enc_mat(T["rho"], f2bits),
+                                                      enc_vec([] if T["lam"] is None else [T["lam"]], f2bits), str(T["node"])]))
+    last = tr[-1]
+    lines.append(" ".join(["F", "rho"] + cfgt + [enc_mat(S["after"]["u"], f2bits), enc_mat(S["after"]["w"], f2bits)]))
+    ans = drv.batch(lines)
+    for j, T in enumerate(tr):
+        ms = parse_state(ans[j], bits2f)
+        nxt = tr[j + 1] if j + 1 < len(tr) else S["after"]
+        if ms is None:
+            return f"sweep {S['it']} node {T['node']}: model answers {ans[j][:60]!r}"
+        rtol = 1e-9 + 64 * T["cond"]
+        ctx.count("model_node_steps_compared")
+        if not (rtol < 1e-4):
+            ctx.count("model_node_steps_skipped_multiplier_ill_conditioned")
+            continue
+        rs = [max(r) if r else 0.0 for r in S["psimax"]]
+        for name, per_row in (("u", False), ("psi", True), ("bar", True)):
+            d = mat_diff(nxt[name], ms[name], rtol=rtol, per_row=per_row, row_scale=rs if per_row else None)
+            if d is not None:
+                if near_threshold({"after": {"u": nxt["u"]}}, ms, case["min_value_par"]):
+                    ctx.count("model_steps_skipped_near_threshold")
+                    break
+                return (f"sweep {S['it']}, update of node {T['node']}: {name} differs at {d[:2]}: "
+                        f"implementation {d[2]!r}, model {d[3]!r}")
+    rho_m = dec_mat(ans[-1], bits2f)
+    d = mat_diff(S["after"]["rho"], rho_m)
+    if d is not None:
+        return f"sweep {S['it']}: rho differs at {d[:2]}: implementation {d[2]!r}, model {d[3]!r}"
+    return None
 
 
 def near_threshold(S, ms, minv):
@@ -815,7 +907,7 @@ def exact_state_case(ctx, drv, rng):
             h = build(case)
             m = new_model(case)
             m._check_fit_params(hypergraph=h, **fit_args(case))
-            ev = {"repair": 0, "lams": [], "draws": []}
+            ev = {"repair": 0, "lams": [], "draws": [], "cond": {}}
             wrap_prng(m, ev)
             m._initialize_psiOmega()
             m._initialize_u_w(hyperEdges=m.hyperEdges, baseline_HySC=False)
